@@ -7,14 +7,16 @@ RULE = ("P1: TLC explores spec/Dist.tla for all 13 kinds on a 5..7-value grid pe
         "EVERY path up to the depth bound; after each step the object must be observationally equal (Debug rendering, "
         "mean, var, 8 density/mass probes, 12-draw seeded sample stream) to a twin freshly constructed from the spec's "
         "parameters and observed in a thread of its own; Default::default() of every law is observationally some fresh "
-        "object; stream reproducibility and independence from other live objects per state, 40000-draw requests "
-        "reproducible and extending the small request; extreme magnitudes and special values (spec/MC_DistExtreme.tla, "
-        "272 cases: +-2^-1074 .. 2^1000 with validity decided symbolically; NaN and +-inf rejected where the constraint"
-        " decides it and otherwise decided alike by all entry points) through constructor, setter and bulk update; the "
-        "grid contains Poisson rates 11 and 160 and Binomial n = 100, 200 (three BTPE states sharing n or p) so that "
-        "setters cross every sampler regime; P3: seeded random histories of 1..20 mutations recorded with observation "
-        "fingerprints, validated by TLC (Trace_Dist) against the fingerprints of fresh objects. Case class = (kind, "
-        "call, valid/invalid).")
+        "object; the seeded streams of Normal and Gumbel in units of 2^-70 and 2^40 are the unit streams times the "
+        "unit; accepted extreme values show the observations of a twin built in its own thread, also for two tiny "
+        "values set one after the other; stream reproducibility and independence from other live objects per state, "
+        "40000-draw requests reproducible and extending the small request; extreme magnitudes and special values "
+        "(spec/MC_DistExtreme.tla, 272 cases: +-2^-1074 .. 2^1000 with validity decided symbolically; NaN and +-inf "
+        "rejected where the constraint decides it and otherwise decided alike by all entry points) through constructor,"
+        " setter and bulk update; the grid contains Poisson rates 11 and 160 and Binomial n = 100, 200 (three BTPE "
+        "states sharing n or p) so that setters cross every sampler regime; P3: seeded random histories of 1..20 "
+        "mutations recorded with observation fingerprints, validated by TLC (Trace_Dist) against the fingerprints of "
+        "fresh objects. Case class = (kind, call, valid/invalid).")
 ASSUMPTIONS = ["parameters on a dyadic grid (quarters) / small integers; negative values for unsigned-typed fields not offered",
                "a rejected bulk update may leave any VALID per-field mix of old and new values (setter order is not mandated)",
                "observational identity is judged on the listed observables; both sides are produced by the same code"]
